@@ -106,6 +106,7 @@ def stream_box(tier, seed, props):
     exhaustive_count = len(specs)
     if tier == "thorough":
         specs += list(boxes.seeded_specs(seed, 600))
+        specs += list(boxes.deep_specs())
     jobs = [(s, tp["passes"]) for s in specs]
     out = _pool_map(_stream_worker, jobs)
     # second pass over the exhaustive part in the opposite order: a stream must not depend on which
@@ -182,6 +183,23 @@ def c05(tier, seed):
     r["rule"] = ("T_adv induced by the real n_advance compared with n+gw_extra(n,u); stream "
                  "forward steps counted by the reference executor; non-trivial = n>=3")
     # (a) bridge
+    advance_bridge(r, "C05", tier)
+    # closed form vs recurrence
+    for n in range(1, 61):
+        for s in range(1, n + 1):
+            if n > 1 and specs.gw_extra(n, s) != specs.gw_extra_closed(n, s):
+                r["violations"].append(_viol("C05", "gw_closed_form", ("gw", n, s),
+                                             "recurrence!=closed form (oracle defect)"))
+    _c05_rest(r, tier, seed, specs, optimal_steps_binomial)
+    return r
+
+
+def advance_bridge(r, prop, tier):
+    """T_adv induced by the real n_advance (contracts/specs.py) == n + Griewank-Walther optimum: what
+    turns the proved 'stream steps == WADV' (C05) and 'block steps == WADV' (C13) into optimality."""
+    from contracts import specs
+    from checkpoint_schedules.multistage import n_advance
+    nb = 3000 if tier == "thorough" else 400
     umax = 60 if tier == "thorough" else 30
     for tr in boxes.TRAJ:
         T = specs.T_adv_factory(n_advance, tr)
@@ -193,24 +211,25 @@ def c05(tier, seed):
                 try:
                     got = T(n, u)
                 except AssertionError as exc:
-                    r["violations"].append(_viol("C05", "n_advance.T_adv_bridge",
+                    r["violations"].append(_viol(prop, "n_advance.T_adv_bridge",
                                                  ("n_advance", n, u, tr), exc))
                     continue
                 want = n + specs.gw_extra_closed(n, u)
                 if got != want:
                     r["violations"].append(_viol(
-                        "C05", "n_advance.T_adv_bridge", ("n_advance", n, u, tr),
+                        prop, "n_advance.T_adv_bridge", ("n_advance", n, u, tr),
                         "steps induced=%d optimum=%d" % (got, want)))
-    # closed form vs recurrence
-    for n in range(1, 61):
-        for s in range(1, n + 1):
-            if n > 1 and specs.gw_extra(n, s) != specs.gw_extra_closed(n, s):
-                r["violations"].append(_viol("C05", "gw_closed_form", ("gw", n, s),
-                                             "recurrence!=closed form (oracle defect)"))
-    # (b) helper
+
+
+def _c05_rest(r, tier, seed, specs, optimal_steps_binomial):
+    # (b) helper (exhaustive up to nh, then a few sizes beyond 2**7 .. 2**10; after the small ones, so
+    # that a cache poisoned by a large call would show on a small one only in the reverse order - both
+    # orders are run)
     nh = 120 if tier == "thorough" else 60
-    for n in range(1, nh + 1):
-        for s in range(min(1, n - 1), n):
+    pairs = [(n, s) for n in range(1, nh + 1) for s in range(min(1, n - 1), n)]
+    pairs += [(n, s) for n in (130, 257, 520, 1030, 1100) for s in (1, 2, 3, 5)]
+    for (n, s) in pairs + list(reversed(pairs)):
+        for _once in (0,):
             r["evaluations"] += 1
             try:
                 got = optimal_steps_binomial(n, s)
@@ -860,6 +879,9 @@ def c13(tier, seed):
             if clause not in seen:
                 seen.add(clause)
                 r["violations"].append(_viol("C13", clause, spec, d))
+    # the blocks are proved to take WADV(L, b+1) steps; that this is the binomial optimum is the bridge
+    advance_bridge(r, "C13", tier)
+    r["clauses"].append("n_advance.T_adv_bridge")
     return r
 
 
@@ -1266,8 +1288,22 @@ def c18_values(tier, seed):
     r["exhaustive"] = False
     sts = list(StorageType)
 
+    import sys as _sysm
+    BIG = [_sysm.maxsize - 1, _sysm.maxsize, _sysm.maxsize + 1, 2 * _sysm.maxsize, 2 ** 64, 10 ** 30]
+
     def mk():
         k = rng.randrange(6)
+        if rng.random() < 0.15:
+            # steps around sys.maxsize (what an online schedule emits before it is finalised) and beyond
+            b = rng.choice(BIG)
+            if k in (0, 4):
+                return Forward(b, b + rng.choice([1, 7]), rng.random() < .5, rng.random() < .5,
+                               rng.choice(sts))
+            if k in (1, 5):
+                return Reverse(b + rng.choice([1, 7]), b, rng.random() < .5)
+            if k == 2:
+                return Copy(b, rng.choice(sts[:2]), rng.choice(sts))
+            return Move(b, rng.choice(sts[:2]), rng.choice(sts))
         if k == 0:
             n0 = rng.randint(0, 30)
             return Forward(n0, n0 + rng.randint(1, 9), rng.random() < .5, rng.random() < .5,
